@@ -131,6 +131,17 @@ def write_before_read(rep, prog, rule):
     rep.floor(rule, "scratch image creations", n, 3)
 
 
+def _has_opaque_call(prog, e):
+    """a call of a crate-local function (its value is not an expression of the arguments here)"""
+    if not isinstance(e, tuple) or not e:
+        return False
+    if e[0] in ("call", "callat"):
+        res = e[4] if e[0] == "callat" else e[3]
+        if isinstance(res, str) and res in prog.fns:
+            return True
+    return any(_has_opaque_call(prog, x) for x in e if isinstance(x, tuple))
+
+
 def slack(rep, prog, rule):
     rep.rule(rule, "get_temp_image_from_buffer requests count*size + slack bytes with slack >= "
              "align-1 (it uses size()), grows the buffer when it is shorter (never depends on the "
@@ -145,7 +156,8 @@ def slack(rep, prog, rule):
     if len(resize) != 1:
         rep.unk(rule, "resize", f.loc, "%d resize calls" % len(resize))
         return
-    size_e = strip_widen(sym.operand(resize[0].args[1]))
+    from ..engines.validators import resolve_helpers
+    size_e = strip_widen(resolve_helpers(prog, sym.operand(resize[0].args[1])))
     w = ("param", f.param_index("width"), "width")
     h = ("param", f.param_index("height"), "height")
 
@@ -208,7 +220,7 @@ def slack(rep, prog, rule):
     ctor = [c for c in f.calls() if c.name.endswith("from_pixels_slice")]
     if len(al) == 1 and len(idx) == 1 and len(ctor) == 1:
         recv = sym.operand(idx[0].args[0])
-        rng = sym.operand(idx[0].args[1])
+        rng = resolve_helpers(prog, sym.operand(idx[0].args[1]))
         mid = recv[0] == "field" and recv[2] == 1
         if not mid:
             rep.bad(rule, "middle", idx[0].at, "the typed slice is %s, not the aligned middle "
@@ -217,9 +229,12 @@ def slack(rep, prog, rule):
             rep.ok(rule, "middle", idx[0].at, "middle part of align_to_mut")
         if rng[0] == "agg" and rng[4][0] == ("const", 0, "usize") and is_count(rng[4][1]):
             rep.ok(rule, "slice", idx[0].at, "pixels[0..width*height]")
+        elif _has_opaque_call(prog, rng):
+            rep.unk(rule, "slice", idx[0].at, "scratch slice %s goes through a helper that was not "
+                    "resolved to an expression" % fmt(rng)[:100])
         else:
             rep.bad(rule, "slice", idx[0].at, "scratch slice is %s" % fmt(rng))
-        a = [sym.operand(x) for x in ctor[0].args]
+        a = [resolve_helpers(prog, sym.operand(x)) for x in ctor[0].args]
         if a[0] == w and a[1] == h:
             rep.ok(rule, "dims", ctor[0].at, "TypedImage(width, height)")
         else:
